@@ -113,3 +113,15 @@ PROPS["C10"] = {
         {"name": "C10.partial", "test": "TestVerifC10Partial", "shards": 4},
     ],
 }
+
+PROPS["C06"] = {
+    "claimed": False,
+    "level": "exploration",
+    "level_text": "TODO",
+    "level_note": "TODO",
+    "technique": "TODO",
+    "rule": "TODO",
+    "monitors": [
+        {"name": "C06.route", "test": "TestVerifC06Route", "shards": 16},
+    ],
+}
